@@ -107,18 +107,21 @@ Proof.
   change (removelast (x :: y :: r)) with (x :: removelast (y :: r)). reflexivity.
 Qed.
 
+Lemma frev_rev l : frev l = rev l.
+Proof. unfold frev. symmetry. apply rev_alt. Qed.
+
 Lemma lines_acc_spec s : forall cur, ~ In 10 cur ->
   Forall2 bufline (lines_acc s cur) (drop_last_empty (prefix_first (rev cur) (split_all 10 s))).
 Proof.
   induction s as [|b r IH]; intros cur Hc.
-  - cbn [lines_acc split_all prefix_first]. rewrite app_nil_r.
+  - cbn [lines_acc split_all prefix_first]. rewrite ?frev_rev, app_nil_r.
     destruct cur as [|x cur'].
     + cbn. constructor.
     + unfold drop_last_empty. cbn [last]. destruct (rev (x :: cur')) eqn:E.
       * apply (f_equal (@length _)) in E. rewrite rev_length in E. discriminate.
       * rewrite <- E. constructor; [|constructor]. split; [right; reflexivity|].
         rewrite <- in_rev. exact Hc.
-  - cbn [lines_acc split_all]. destruct (b =? 10) eqn:E.
+  - cbn [lines_acc split_all]. rewrite ?frev_rev. destruct (b =? 10) eqn:E.
     + apply N.eqb_eq in E; subst b. cbn [prefix_first]. rewrite app_nil_r.
       rewrite drop_last_empty_cons by apply split_all_nonempty.
       constructor.
@@ -266,7 +269,7 @@ Proof. intro H. unfold is_sp, blank. apply N.eqb_neq in H. rewrite H. cbn. apply
 
 Lemma strip_trim l : ~ In 10 l -> strip l = trim l.
 Proof.
-  intro H. unfold strip, trim.
+  intro H. unfold strip, trim. rewrite !frev_rev.
   assert (E1 : drop_while is_sp l = drop_while blank l).
   { apply drop_while_ext_in. intros x Hx. apply sp_blank. intro; subst; auto. }
   rewrite E1. f_equal. apply drop_while_ext_in. intros x Hx. apply sp_blank. intro; subst.
@@ -275,7 +278,7 @@ Qed.
 
 Lemma strip_nl l : strip (l ++ [10]) = strip l.
 Proof.
-  unfold strip. destruct (drop_while is_sp l) eqn:E.
+  unfold strip. rewrite !frev_rev. destruct (drop_while is_sp l) eqn:E.
   - apply drop_while_nil_forallb in E. rewrite drop_while_app_all by auto. reflexivity.
   - rewrite drop_while_app_ne by (rewrite E; discriminate). rewrite E.
     rewrite rev_app_distr. cbn [rev app]. reflexivity.
